@@ -312,7 +312,13 @@ def r3_fourier(ctx: Context) -> None:
         nn = normaliser(prog, f, inline_locals=False)
         ok = str(nn.rat(chain)) == str(nn.rat(parse_expr(f"self.frequency_filter(np.fft.rfft({m}, axis=0), self.f)")))
     ctx.check(ok, "R3.fourier", "FourierLoss.compute_loss_1d:member-spectrum", "each member contributes frequency_filter(rfft(member), f)", "member spectrum pipeline changed", f, lp)
-    mean_ok = any(isinstance(c, ast.Call) and isinstance(c.func, ast.Attribute) and c.func.attr == "mean" and (src(c.args[0]) if c.args else src(kwarg(c, "axis"))) == "0" for c in ast.walk(f.node))
+    def _axis0_mean(c: ast.AST) -> bool:
+        if not (isinstance(c, ast.Call) and isinstance(c.func, ast.Attribute) and c.func.attr in ("mean", "average")):
+            return False
+        fn_ = dotted(c.func) or ""
+        ax = kwarg(c, "axis", 1) if fn_ in ("np.mean", "numpy.mean", "np.average", "numpy.average") else kwarg(c, "axis", 0)      # np.mean(x, 0) / x.mean(0)
+        return ax is not None and src(ax) == "0"
+    mean_ok = any(_axis0_mean(c) for c in ast.walk(f.node))
     ctx.check(mean_ok, "R3.fourier", "FourierLoss.compute_loss_1d:member-mean", "filtered spectra are averaged over the members (axis 0)", "member mean changed", f, f.node)
     # filters
     i = ctx.func("black_it.loss_functions.fourier:ideal_low_pass_filter")
